@@ -264,6 +264,15 @@ dround_ddur_cocl(struct dt_d_s d, struct dt_ddur_s dur, bool UNUSED(nextp))
 	case DT_DURMO: {
 		int ym, of, on;
 
+		if (d.typ != DT_YMD && d.typ != DT_YMCW) {
+			/* no months in there, go through ymd */
+			const dt_dtyp_t typ = d.typ;
+
+			d = dt_dconv(DT_YMD, d);
+			d = dround_ddur_cocl(d, dur, nextp);
+			return dt_dconv(typ, d);
+		}
+
 		/* we need the concept of months and years
 		 * and we use the fact that ymd's and ymcw's
 		 * y and m slots coincide*/
@@ -359,6 +368,17 @@ dround_ddur(struct dt_d_s d, struct dt_ddur_s dur, bool nextp)
 			/* final assignment */
 			d.ymd.d = tgt;
 			break;
+		case DT_YWD:
+		case DT_YD:
+		case DT_DAISY:
+		via_ymd:
+			/* no months in there, go through ymd */
+			with (const dt_dtyp_t typ = d.typ) {
+				d = dt_dconv(DT_YMD, d);
+				d = dround_ddur(d, dur, nextp);
+				d = dt_dconv(typ, d);
+			}
+			break;
 		default:
 			break;
 		}
@@ -452,6 +472,14 @@ Warning: rounding to n-th business day not supported for input value");
 				d.ymd.d = mdays;
 			}
 			break;
+		case DT_YWD:
+		case DT_YD:
+		case DT_DAISY:
+			if (dur.durtyp == DT_DURQU) {
+				/* that's in months already */
+				dur.durtyp = DT_DURMO;
+			}
+			goto via_ymd;
 		default:
 			break;
 		}
